@@ -4,8 +4,13 @@
 //! (`chainStep`: `get_block_epoch` statistics -> `next_epoch_ext` -> `number_with_fraction`).
 //!
 //!   ninit <T> <initial> <halving> <ortN> <ortD> <base> <rem> <hash_rate> <len> <compact> <genesis_ts>   -> ok
-//!   nb <number> <timestamp_ms> <uncles>   -> <epoch full value> <compact target> [E <number> <base> <rem> <hr> <start> <len>]
-//!        (the `E …` part at the first block of an epoch: the stored EpochExt)
+//!   nb <number> <timestamp_ms> <uncles>   -> <epoch full value> <compact target> R <block reward> [E <number> <base> <rem> <hr> <start> <len>]
+//!        (`R`: `block_reward(number)` of the EpochExt the node stored for this block; the `E …` part at
+//!         the first block of an epoch: the stored EpochExt)
+//!   nv <epoch full value> <compact target> -> ok | number-mismatch | target-mismatch
+//!        a candidate child of the tip with these two header fields is offered to the real node
+//!        (`blocking_process_block` -> `ContextualBlockVerifier` -> contextual `EpochVerifier`); the answer
+//!        is the `EpochError` variant of the rejection (the tip does not move)
 //! Blocks are built by `ChainBuilder` (the repo's own calculators) with timestamps and uncle counts
 //! chosen here; the node's contextual `EpochVerifier` accepts them; the model is the independent
 //! third party.  Variants with the target or an epoch sub-field off by one must be rejected.
@@ -24,7 +29,9 @@ use ckb_types::{
     prelude::*,
     utilities::{DIFF_TWO, compact_to_difficulty},
 };
+use ckb_verification::{EpochError, HeaderError};
 use std::collections::HashSet;
+use std::sync::Arc;
 
 const MIN_LEN: u64 = 300;
 const MAX_LEN: u64 = 1800;
@@ -85,6 +92,10 @@ struct Sim {
     epochs_done: u64,
     accepted: u64,
     rejected_variants: u64,
+    /// primary rewards handed out in the epoch of the tip so far, and that epoch's scheduled reward
+    epoch_reward_sum: u128,
+    epoch_reward_want: u128,
+    epoch_blocks: u64,
 }
 
 impl Sim {
@@ -96,7 +107,8 @@ impl Sim {
         let node = Node::start(&base.join(tag).join("node"), consensus.clone(), &ncfg);
         let builder = ChainBuilder::new(consensus.clone(), &base.join(tag).join("builder"));
         let g = consensus.genesis_block().clone();
-        let e0 = consensus.genesis_epoch_ext();
+        let e0 = consensus.genesis_epoch_ext().clone();
+        let initial_want = cfg.initial as u128;
         out.begin_case(&format!("node T={} len0={} halving={}", cfg.t, cfg.len0, cfg.halving));
         out.op(
             &format!(
@@ -113,7 +125,7 @@ impl Sim {
             ),
             "ok",
         );
-        Sim { cfg, consensus, node, builder, tip: g, pool: vec![], included: HashSet::new(), salt: 0, epoch_uncles: 0, epochs_done: 0, accepted: 0, rejected_variants: 0 }
+        Sim { cfg, consensus, node, builder, tip: g, pool: vec![], included: HashSet::new(), salt: 0, epoch_uncles: 0, epochs_done: 0, accepted: 0, rejected_variants: 0, epoch_reward_sum: quiet_reward(&e0, 0).unwrap_or(0) as u128, epoch_reward_want: initial_want, epoch_blocks: 1 }
     }
 
     /// epoch number the block after the tip will be in
@@ -134,6 +146,42 @@ impl Sim {
         self.pool.iter().filter(|u| u.epoch().number() == ep && u.number() < h && !self.included.contains(&u.hash())).cloned().collect()
     }
 
+    /// a copy of `template` (a valid child of the tip) with the two header fields replaced is given to the
+    /// node; the op line carries the rejection class.  A variant must never become the tip.  `Ok(true)`
+    /// alone does not mean adopted: a block whose total difficulty does not exceed the tip's (target
+    /// 0x20ffffff + 1 decodes to difficulty 0) is stored as a side block without contextual verification
+    /// (counted, no op line).
+    fn offer_variant(&mut self, out: &mut Out, template: &BlockView, epoch_full: u64, compact: u32, what: &str) {
+        let v = template.as_advanced_builder().epoch(EpochNumberWithFraction::from_full_value_unchecked(epoch_full)).compact_target(compact).build();
+        if v.hash() == template.hash() {
+            return;
+        }
+        let r = self.node.controller().blocking_process_block(Arc::new(v.clone()));
+        let adopted = self.node.tip_hash() == v.hash();
+        if adopted {
+            out.oracle_fail("tweaked-epoch-or-target-accepted", &format!("block {} variant {} result {:?} tip_is_variant true variant_target {:#x}", v.number(), what, r.as_ref().map_err(|e| e.to_string()), v.compact_target()));
+        }
+        let ans = match &r {
+            _ if adopted => "ok".to_string(),
+            Err(e) => match e.downcast_ref::<HeaderError>().and_then(|h| h.downcast_ref::<EpochError>()).or_else(|| e.downcast_ref::<EpochError>()) {
+                Some(EpochError::NumberMismatch { .. }) => "number-mismatch".to_string(),
+                Some(EpochError::TargetMismatch { .. }) => "target-mismatch".to_string(),
+                Some(EpochError::Malformed { .. }) => "malformed".to_string(),
+                Some(EpochError::NonContinuous { .. }) => "noncontinuous".to_string(),
+                None => format!("other-error:{:?}", e.kind()),
+            },
+            Ok(_) => {
+                self.rejected_variants += 1;
+                out.count("variant-not-adopted");
+                return;
+            }
+        };
+        self.rejected_variants += 1;
+        out.count("variant-rejected");
+        out.count(&format!("variant-{what}"));
+        out.op(&format!("nv {} {}", epoch_full, compact), &ans);
+    }
+
     /// one block with this timestamp and exactly `nunc` uncles; `variants`: also submit off-by-one copies
     fn step(&mut self, out: &mut Out, ts: u64, nunc: usize, variants: bool) {
         let avail = self.available_uncles();
@@ -147,30 +195,41 @@ impl Sim {
         let op = format!("nb {} {} {}", number, ts, nunc);
         if variants {
             let e = blk.epoch();
-            let mut vs: Vec<(BlockView, &str)> = vec![
-                (blk.as_advanced_builder().compact_target(blk.compact_target() - 1).build(), "target-1"),
-                (blk.as_advanced_builder().compact_target(blk.compact_target() + 1).build(), "target+1"),
-                (blk.as_advanced_builder().epoch(EpochNumberWithFraction::new_unchecked(e.number(), e.index(), e.length() + 1)).build(), "length+1"),
-                (blk.as_advanced_builder().epoch(EpochNumberWithFraction::new_unchecked(e.number() + 1, e.index(), e.length())).build(), "number+1"),
+            let ct = blk.compact_target();
+            let mut vs: Vec<(u64, u32, &str)> = vec![
+                (e.full_value(), ct - 1, "target-1"),
+                (e.full_value(), ct + 1, "target+1"),
+                (EpochNumberWithFraction::new_unchecked(e.number(), e.index(), e.length() + 1).full_value(), ct, "length+1"),
+                (EpochNumberWithFraction::new_unchecked(e.number() + 1, e.index(), e.length()).full_value(), ct, "number+1"),
+                // both wrong: the epoch field is checked first
+                (EpochNumberWithFraction::new_unchecked(e.number() + 1, e.index(), e.length()).full_value(), ct + 1, "both"),
+                // bits above the 56 used ones are part of the compared value
+                (e.full_value() | (1u64 << 56), ct, "high-bit"),
             ];
             // (HeaderBuilder debug-asserts well-formed epoch fields; malformed ones are the `header` stream's)
             if e.index() + 1 < e.length() {
-                vs.push((blk.as_advanced_builder().epoch(EpochNumberWithFraction::new_unchecked(e.number(), e.index() + 1, e.length())).build(), "index+1"));
+                vs.push((EpochNumberWithFraction::new_unchecked(e.number(), e.index() + 1, e.length()).full_value(), ct, "index+1"));
+                // the next epoch claimed one block early / the epoch not switched
+                vs.push((EpochNumberWithFraction::new_unchecked(e.number() + 1, 0, e.length()).full_value(), ct, "switch-early"));
             }
             if e.length() > e.index() + 1 {
-                vs.push((blk.as_advanced_builder().epoch(EpochNumberWithFraction::new_unchecked(e.number(), e.index(), e.length() - 1)).build(), "length-1"));
+                vs.push((EpochNumberWithFraction::new_unchecked(e.number(), e.index(), e.length() - 1).full_value(), ct, "length-1"));
             }
-            for (v, what) in vs {
-                // a variant must never become the tip.  `Ok(true)` alone does not mean adopted: a block whose
-                // total difficulty does not exceed the tip's (target 0x20ffffff + 1 decodes to difficulty 0)
-                // is stored as a side block without contextual verification
-                let r = self.node.process(&v);
-                if self.node.tip_hash() == v.hash() {
-                    out.oracle_fail("tweaked-epoch-or-target-accepted", &format!("block {} variant {} result {:?} tip_is_variant {} variant_target {:#x}", number, what, r, self.node.tip_hash() == v.hash(), v.compact_target()));
-                } else {
-                    self.rejected_variants += 1;
-                    out.count(if r.is_err() { "variant-rejected" } else { "variant-not-adopted" });
+            if e.index() == 0 && number > 1 {
+                let pe = parent.epoch();
+                if pe.length() > 0 {
+                    // stay in the finished epoch with its target (well-formed: one more block, longer epoch)
+                    vs.push((EpochNumberWithFraction::new_unchecked(pe.number(), pe.index() + 1, pe.length() + 1).full_value(), parent.compact_target(), "no-switch"));
+                    // the new epoch with the old epoch's length
+                    vs.push((EpochNumberWithFraction::new_unchecked(e.number(), 0, pe.length()).full_value(), ct, "old-length"));
+                    // the new epoch's position with the old target
+                    if parent.compact_target() != ct {
+                        vs.push((e.full_value(), parent.compact_target(), "old-target"));
+                    }
                 }
+            }
+            for (ve, vc, what) in vs {
+                self.offer_variant(out, &blk, ve, vc, what);
             }
         }
         let r = self.node.process(&blk);
@@ -182,7 +241,13 @@ impl Sim {
         self.accepted += 1;
         let e = blk.epoch();
         let head = number >= 1 && e.index() == 0 && e.number() > 0;
-        let mut ans = format!("{} {}", e.full_value(), blk.compact_target());
+        let own_ext = {
+            let store = self.node.store();
+            let idx = store.get_block_epoch_index(&blk.hash()).expect("epoch index");
+            store.get_epoch_ext(&idx).expect("epoch ext")
+        };
+        let reward = quiet_reward(&own_ext, number);
+        let mut ans = format!("{} {} R {}", e.full_value(), blk.compact_target(), reward.map(|r| r.to_string()).unwrap_or_else(|| "fail".into()));
         // property oracles on the node's accepted chain
         if !e.is_well_formed() || (parent.number() > 0 && !e.is_successor_of(parent.epoch())) {
             out.oracle_fail("epoch-fields-not-consecutive", &format!("{op}: {:#x} after {:#x}", e.full_value(), parent.epoch().full_value()));
@@ -221,6 +286,13 @@ impl Sim {
             if ext.start_number() != number || e.length() != l2 || ext.compact_target() != blk.compact_target() {
                 out.oracle_fail("chain-epoch-ext-vs-header", &op);
             }
+            // the finished epoch handed out exactly its scheduled primary reward, block by block
+            if self.epoch_blocks == prev_len && self.epoch_reward_sum != self.epoch_reward_want {
+                out.oracle_fail("chain-epoch-block-rewards-sum", &format!("{op}: epoch before {} of {} blocks: sum {} scheduled {}", ext.number(), prev_len, self.epoch_reward_sum, self.epoch_reward_want));
+            }
+            self.epoch_reward_sum = 0;
+            self.epoch_blocks = 0;
+            self.epoch_reward_want = want as u128;
             self.epochs_done += 1;
             self.epoch_uncles = 0;
             out.count("epoch-head");
@@ -228,6 +300,8 @@ impl Sim {
         }
         out.op(&op, &ans);
         out.count("block");
+        self.epoch_reward_sum += reward.unwrap_or(0) as u128;
+        self.epoch_blocks += 1;
         self.epoch_uncles += nunc as u64;
         for u in uncles {
             self.included.insert(u.hash());
@@ -235,7 +309,10 @@ impl Sim {
         // a sibling of this block, usable as an uncle by later blocks of the same epoch
         let sib = blk.as_advanced_builder().timestamp(blk.timestamp() + 1).set_uncles(vec![]).build();
         self.pool.push(sib);
-        if self.pool.len() > 64 {
+        // a second one: two uncles per block (max_uncles_num) is the highest orphan rate a chain can record
+        let sib2 = blk.as_advanced_builder().timestamp(blk.timestamp() + 2).set_uncles(vec![]).build();
+        self.pool.push(sib2);
+        while self.pool.len() > 96 {
             self.pool.remove(0);
         }
         self.tip = blk;
@@ -247,6 +324,10 @@ impl Sim {
         self.node.stop();
         let _ = std::fs::remove_dir_all(dir);
     }
+}
+
+fn quiet_reward(ext: &ckb_types::core::EpochExt, number: u64) -> Option<u64> {
+    std::panic::catch_unwind(std::panic::AssertUnwindSafe(|| ext.block_reward(number).ok().map(|c| c.as_u64()))).ok().flatten()
 }
 
 /// per-epoch behaviour of the generated chain
@@ -334,6 +415,14 @@ pub fn run(opts: &Opts) {
                     let s = sim.as_mut().expect("ninit first");
                     assert_eq!(parse_u(t[1]), s.tip.number() + 1, "malformed sequence: block numbers must be consecutive");
                     s.step(&mut out, parse_u(t[2]), parse_u(t[3]) as usize, false);
+                }
+                "nv" => {
+                    let s = sim.as_mut().expect("ninit first");
+                    s.salt += 1;
+                    let parent = s.tip.clone();
+                    let spec = BlockSpec { salt: s.salt, timestamp: Some(parent.timestamp() + 1), ..Default::default() };
+                    let cand = s.builder.build(&parent.hash(), &spec);
+                    s.offer_variant(&mut out, &cand, parse_u(t[1]), parse_u(t[2]) as u32, "replay");
                 }
                 other => panic!("unknown op {other}"),
             }
